@@ -11,9 +11,11 @@
 package c14
 
 import (
+	"encoding/json"
 	"fmt"
 	"math"
 	"os"
+	"path/filepath"
 	"sort"
 	"strings"
 	"time"
@@ -50,7 +52,7 @@ func Run(tier string, seed uint64, modelPath, repo string, out *res.Result) erro
 		nLinks, nBk, nDocs = 200, 200, 500
 	}
 	out.Rule = "L1: random page lists (<=5 pages, anchor names from a pool of 5 incl. the empty name, internal/external/attachment links incl. dangling) through resolveLinks, " +
-		"random bookmark-level lists (length<=12, levels 1..9 jumping both ways, 3% with levels<=0) through makeBookmarkTree, compared with the Lean models and judged; " +
+		"random bookmark-level lists (length<=12, levels 1..9 jumping both ways, 3% with levels<=0) through makeBookmarkTree, compared with the Lean models (exact per-page anchor sequence) and judged; corpus documents first; " +
 		"L2: generated HTML documents (headings/ids incl. duplicates, internal/dangling/external links, bookmark CSS, metadata, transforms, backgrounds/gradients/images, all border styles, " +
 		"radii, outlines, text decorations, tables, lists, columns, inline SVG with unique fill colours, page breaks, bleed/marks, zoom 0.5/1/2) written onto a recording backend; " +
 		"the call sequence is judged by the Lean monitor; non-trivial = L1 case with >=2 entries / document with >=40 backend calls; distinct by input text"
@@ -123,13 +125,11 @@ func sortPairs(ps []nameWho) {
 	})
 }
 
-// canonical text of per-page anchors (sorted inside a page: the implementation's order is a map's)
+// text of per-page anchors, in the exact per-page order (deterministic since resolveLinks sorts the names)
 func canonAnchors(pages [][]nameWho) string {
 	var b strings.Builder
 	for _, p := range pages {
-		q := append([]nameWho(nil), p...)
-		sortPairs(q)
-		fmt.Fprintf(&b, "%v|", q)
+		fmt.Fprintf(&b, "%v|", p)
 	}
 	return b.String()
 }
@@ -207,7 +207,6 @@ func runLinksL1(m *mp.Model, r *rng.R, n int, out *res.Result) error {
 			for _, a := range pa {
 				ps = append(ps, nameWho{a.Name, int(a.X)})
 			}
-			sortPairs(ps)
 			implA = append(implA, ps)
 			outA = append(outA, pairsX(ps))
 		}
@@ -433,6 +432,44 @@ func runDocs(m *mp.Model, r *rng.R, n int, fonts text.FontConfiguration, out *re
 	crashes := map[string]*crashNote{}
 	shrunk := map[string]int{}
 	printed := map[string]bool{}
+	// corpus: minimised past failures, replayed first (a regression is reported like any other finding)
+	if exe, err := os.Executable(); err == nil {
+		files, _ := filepath.Glob(filepath.Join(filepath.Dir(filepath.Dir(exe)), "corpus", "C14", "*.json"))
+		sort.Strings(files)
+		for _, fn := range files {
+			var c struct {
+				Name, What, HTML string
+				Zoom             float64
+				SvgKinds         map[string]string `json:"svg_kinds"` // "rrggbb" fill colour -> svg element kind
+			}
+			data, err := os.ReadFile(fn)
+			if err != nil || json.Unmarshal(data, &c) != nil || c.HTML == "" {
+				return fmt.Errorf("corpus file %s: unreadable or empty", fn)
+			}
+			if c.Zoom == 0 {
+				c.Zoom = 1
+			}
+			kinds := map[[3]uint8]string{}
+			for hex, k := range c.SvgKinds {
+				var r, g, b uint8
+				fmt.Sscanf(hex, "%02x%02x%02x", &r, &g, &b)
+				kinds[[3]uint8{r, g, b}] = k
+			}
+			fs, err := check(m, &docSpec{HTML: c.HTML, Zoom: c.Zoom, SvgKinds: kinds}, 0, fonts, nil, nil)
+			if err != nil {
+				return err
+			}
+			out.Hit("corpus")
+			for _, f := range fs {
+				if f.Op == "judge:metadata" {
+					continue // corpus documents carry no expected metadata
+				}
+				f.Reason = "corpus case " + c.Name + ": " + f.Reason
+				out.Add(f)
+			}
+		}
+		out.Notes = append(out.Notes, fmt.Sprintf("corpus: %d minimised past failures replayed first", len(files)))
+	}
 	for i := 0; i < n; i++ {
 		cr := r.Sub()
 		caseSeed := cr.Seed()
@@ -672,7 +709,6 @@ func check(m *mp.Model, spec *docSpec, caseSeed uint64, fonts text.FontConfigura
 				ia = append(ia, nameWho{a.Name, who})
 			}
 		}
-		sortPairs(ia)
 		outAX = append(outAX, pairsX(ia))
 		// implementation: links of page k in call order
 		var il []document.Link
